@@ -296,10 +296,11 @@ def run(ctx):
         T = rng.choice([4, 6, 8, 10])
         lay = rng.choice(lay_pool)
         lay2 = obsutil.derive_layout(rng, lay, rng.choice(["same", "same", "subset_prefix", "superset"]))
-        a = pe.Corr([mk_obs(lay, "positive") if rng.random() < 0.85 else None for _ in range(T)] )
-        b = pe.Corr([mk_obs(lay2, "positive") if rng.random() < 0.85 else None for _ in range(T)])
-        if all(x is None for x in a.content):
-            continue
+        ca = [mk_obs(lay, "positive") if rng.random() < 0.85 else None for _ in range(T)]
+        cb = [mk_obs(lay2, "positive") if rng.random() < 0.85 else None for _ in range(T)]
+        if all(x is None for x in ca) or all(x is None for x in cb):
+            continue        # the constructor refuses a correlator without any defined timeslice
+        a, b = pe.Corr(ca), pe.Corr(cb)
         fam = rng.choice(["add", "sub", "mul", "div", "sym", "antisym", "tsym", "obsmul"])
         import warnings
         try:
@@ -322,7 +323,10 @@ def run(ctx):
                     res = a.T_symmetry(b, par)
                     pick = lambda t: ([a.content[t][0], b.content[T - 1 - t][0]], lambda v: (v[0] + par * v[1]) / 2, lambda v: [0.5, 0.5 * par])
         except Exception as e:
-            if fam == "antisym" and a.content[0] is None or isinstance(e, ValueError):
+            # an operation whose result has no defined timeslice at all may be refused with any exception (the property speaks about defined timeslices)
+            partner = {"add": lambda t: t, "sub": lambda t: t, "mul": lambda t: t, "div": lambda t: t, "tsym": lambda t: T - 1 - t}.get(fam)
+            nothing_defined = partner is not None and not any(ca[t] is not None and cb[partner(t)] is not None for t in range(T))
+            if fam == "antisym" and a.content[0] is None or isinstance(e, ValueError) or nothing_defined:
                 ctx.skip("observable level: %s raised %s" % (fam, type(e).__name__))
             else:
                 ctx.fail("observable-level:raises:" + fam, "%s raised %r" % (fam, e), {"family": fam, "T": T})
